@@ -186,6 +186,11 @@ def _content_for(v, lvl, kind, salt):
     mx = gens.max_len(v, lvl, mode)
     if mode == 'byte':
         n = mx if kind != 'random' else rnd.randint(1, mx)
+        if kind.startswith('padlike'):
+            # data which looks like pad codewords after the 12 / 20 bit header (nibble shifted and plain)
+            unit = {'padlike1': b'\xce', 'padlike2': b'\xc1\x1e', 'padlike3': b'\x11', 'padlike4': b'\xec\x11'}[kind]
+            n = rnd.randint(max(1, mx // 3), mx)
+            return (unit * (n // len(unit) + 1))[:n], 'byte'
         if kind == 'zeros':
             return bytes(n), 'byte'
         if kind == 'ones':
@@ -202,12 +207,15 @@ def _content_for(v, lvl, kind, salt):
 
 def layout_cases(tier, seed):
     cases = []
-    kinds = ('zeros', 'ones', 'random') if tier == 'quick' else ('zeros', 'ones', 'random', 'random2', 'random3', 'random4')
+    kinds = ('zeros', 'ones', 'random', 'padlike1', 'padlike2', 'padlike3', 'padlike4') if tier == 'quick' else \
+        ('zeros', 'ones', 'random', 'random2', 'random3', 'random4', 'padlike1', 'padlike2', 'padlike3', 'padlike4')
     for v in R.ALL_VERSIONS:
         for lvl in R.levels_of(v):
             for ki, kind in enumerate(kinds):
                 salt = stable_hash(seed, str(v), lvl, kind)
                 content, mode = _content_for(v, lvl, 'random' if kind.startswith('random') else kind, salt)
+                if kind.startswith('padlike') and mode != 'byte':
+                    continue
                 kw = {'version': v, 'boost_error': False, 'mask': salt % R.n_masks(v), 'mode': mode}
                 if lvl is not None:
                     kw['error'] = lvl
